@@ -10,6 +10,10 @@ S="$WT/SEED/$N"
 export CARGO_NET_OFFLINE=true CARGO_TARGET_DIR="$WT/target"
 [ -f "$S/patch.diff" ] || { echo "no patch"; exit 2; }
 cd "$WT" || exit 2
+# PHASE=wt: only the worktree part (can run in parallel for several worktrees), results kept in $S/rcs;
+# PHASE=repo: only the /repo part, reading $S/rcs; default: both
+PHASE="${PHASE:-both}"
+if [ "$PHASE" != repo ]; then
 git checkout -q -- . ; git clean -fdq -e SEED -e target
 PLACE=$(python3 -c "import json;print(json.load(open('$S/meta.json'))['demo_place'])")
 CMD=$(python3 -c "import json,re;print(re.split(r'\s{2,}\(', json.load(open('$S/meta.json'))['demo_cmd'])[0])")
@@ -30,6 +34,10 @@ cargo test --offline -j 8 -p "$CRATE" >"$S/tests_patched.log" 2>&1; rc_tests=$?
 grep -E "^test result|FAILED|failed" "$S/tests_patched.log" | sort | uniq -c | head -12
 echo "rc=$rc_tests"
 git checkout -q -- . ; git clean -fdq -e SEED -e target
+echo "$rc_clean $rc_patched $rc_tests $DEMO" > "$S/rcs"
+fi
+[ "$PHASE" = wt ] && exit 0
+read rc_clean rc_patched rc_tests DEMO < "$S/rcs"
 # ---- checks against /repo
 if [ -n "$(git -C /repo status --porcelain --untracked-files=no)" ]; then echo "/repo not clean"; exit 2; fi
 git -C /repo apply "$S/patch.diff" || { echo "patch does not apply to /repo"; exit 2; }
